@@ -91,13 +91,20 @@ def load_known() -> list[dict]:
     return json.loads(KNOWN_FILE.read_text())["findings"]
 
 
+def _site(x) -> str:
+    """a finding is located by the function it is in, not by the closure inside it: `f.<helper>` and `f` are the same site, so
+    extracting a nested helper (or inlining one) does not turn a listed finding into a new one"""
+    import re
+    return re.sub(r"\.<[A-Za-z_0-9]+>", "", str(x))
+
+
 def match_known(prop: str, f: Finding, known: list[dict]) -> dict | None:
     for k in known:
         if k.get("status") != "known":
             continue
         if prop not in k.get("properties", [k.get("property")]):
             continue
-        if k["rule"] == f.rule and list(k["key"]) == [str(x) for x in f.key]:
+        if k["rule"] == f.rule and [_site(x) for x in k["key"]] == [_site(x) for x in f.key]:
             return k
     return None
 
